@@ -6,6 +6,7 @@ package main
 // refused calls leave the table list and the table contents unchanged, KV/Cluster never care.
 
 import (
+	"os"
 	"context"
 	"encoding/base64"
 	"errors"
@@ -458,6 +459,9 @@ func (g *tokGroup) ensureTable(name string, nkeys int) error {
 		if status.Code(e) == codes.InvalidArgument && strings.Contains(status.Convert(e).Message(), "exist") {
 			return nil
 		}
+		if status.Code(e) == codes.FailedPrecondition { // "shard is not ready" right after start-up: retried
+			return status.Error(codes.Unavailable, "not ready: "+e.Error())
+		}
 		return e
 	})
 	if err != nil {
@@ -662,6 +666,9 @@ func (g *tokGroup) runProbes() {
 			}
 		} else {
 			r.Count("admitted_calls", 1)
+			if os.Getenv("C17_DEBUG") != "" {
+				fmt.Printf("DEBUG %s admitted %s %s: %s | %s\n", g.id, p.Method.short(), o.CodeS, o.Msg, firstDiff(base, after))
+			}
 			if after != base {
 				r.Count("admitted_calls_with_visible_effect", 1)
 			}
